@@ -44,6 +44,19 @@ def field_name(i: int) -> str:
     return "f%d" % i
 
 
+def _as_argument(attrs: list, desc):
+    """The `attributes` parameter is an Iterable: every third description (by a hash of the description, so the choice is a
+    function of the case) hands it over as a one-shot iterator, every third as a generator, the others as the list itself."""
+    import zlib
+
+    sel = zlib.crc32(key(desc).encode()) % 3
+    if sel == 1:
+        return iter(list(attrs))
+    if sel == 2:
+        return (a for a in list(attrs))
+    return attrs
+
+
 def _spoil(attrs: list) -> None:
     """The caller's list of attributes is the CALLER's: a type model object is a value and keeps no alias of it.  Every composite the
     checks build is followed by this caller-side modification of the list that was handed to the constructor."""
@@ -151,7 +164,7 @@ def build(desc, cache: dict | None = None) -> pydsdl.SerializableType:
         out = cls(
             name="vns." + name,
             version=pydsdl.Version(*ver),
-            attributes=attrs,
+            attributes=_as_argument(attrs, desc),
             deprecated=False,
             fixed_port_id=None,
             source_file_path=NS_DIR / ("%s.%d.%d.dsdl" % (name, ver[0], ver[1])),
@@ -170,7 +183,7 @@ def build(desc, cache: dict | None = None) -> pydsdl.SerializableType:
         inner = cls(
             name="vns." + name,
             version=pydsdl.Version(*ver),
-            attributes=attrs,
+            attributes=_as_argument(attrs, desc),
             deprecated=False,
             fixed_port_id=None,
             source_file_path=NS_DIR / ("%s.%d.%d.dsdl" % (name, ver[0], ver[1])),
